@@ -504,10 +504,10 @@ where
             x_half - sigma * r
         };
         let f_itp = f(x_itp);
-        if f_itp.is_sign_positive() {
+        if f_itp > N::zero() {
             right = x_itp;
             f_right = f_itp;
-        } else if f_itp.is_sign_negative() {
+        } else if f_itp < N::zero() {
             left = x_itp;
             f_left = f_itp;
         } else {
